@@ -35,6 +35,10 @@ def configs(tier):
     for d in ("positional", "combined"):
         for tr in ("translate", "scale", "delta-scale"):
             out.append(dict(key=f"kernel,{d},{tr}", kind="kernel", dissim=d, tr=tr, cost=30))
+    # categorical dissimilarities used on their own scale with delta_empty as well (and ignore positions altogether)
+    for d in ("absolute", "ordinal", "levenshtein"):
+        for tr in ("delta-scale", "translate"):
+            out.append(dict(key=f"kernel,{d}-alone,{tr}", kind="kernel", dissim=d, tr=tr, cost=30))
     out.append(dict(key="kernel,absolute,label-bijection", kind="labels", dissim="absolute", cost=5))
     out.append(dict(key="kernel,ordinal,order-preserving-renaming", kind="labels", dissim="ordinal", cost=10))
     sz = [(1, 1), (2, 1), (2, 2), (1, 1, 1)] + ([(2, 1, 1), (3, 1), (1, 1, 1, 1)] if tier == "thorough" else [])
@@ -68,6 +72,12 @@ def harness(cfg, ns):
     def mk(dname, de, alpha, beta):
         if dname == "positional":
             return ds.PositionalSporadicDissimilarity(delta_empty=de)
+        if dname == "absolute":
+            return ds.AbsoluteCategoricalDissimilarity(delta_empty=de)
+        if dname == "ordinal":
+            return ds.OrdinalCategoricalDissimilarity(["x", "w", "y"], [0, 1, 4], delta_empty=de)
+        if dname == "levenshtein":
+            return ds.LevenshteinCategoricalDissimilarity(["x", "y", "xyz"], delta_empty=de)
         return ds.CombinedCategoricalDissimilarity(alpha=alpha, beta=beta, delta_empty=de)
 
     def two_units(ctx, f, labels=("x", "y")):
@@ -296,6 +306,12 @@ def replay(case):
         co_ = [(F(case["s0"]), F(case["e0"])), (F(case["s1"]), F(case["e1"]))]
 
         def mk(de_):
+            if case["dissim"] == "absolute":
+                return pa.AbsoluteCategoricalDissimilarity(delta_empty=de_)
+            if case["dissim"] == "ordinal":
+                return pa.OrdinalCategoricalDissimilarity(["x", "w", "y"], [0, 1, 4], delta_empty=de_)
+            if case["dissim"] == "levenshtein":
+                return pa.LevenshteinCategoricalDissimilarity(["x", "y", "xyz"], delta_empty=de_)
             return pa.PositionalSporadicDissimilarity(delta_empty=de_) if case["dissim"] == "positional" else \
                 pa.CombinedCategoricalDissimilarity(alpha=al_, beta=be, delta_empty=de_)
 
